@@ -270,7 +270,8 @@ structure FnFacts where
   decorators : Nat
   /-- mutable default arguments (a list / dict / set / call as default) -/
   mutableDefaults : Nat
-  /-- `return` statements that are not the last statement of the body -/
+  /-- `return` statements that are not the last statement of the body and hand back something other than a Boolean
+  expression (an early `return True` of a predicate is a branch of its decision tree, tied by the translated kernel) -/
   earlyReturns : Nat
   /-- reads of ambient interpreter / torch state (`torch.is_autocast_enabled`, `is_grad_enabled`, `get_default_dtype`,
   `is_inference_mode_enabled`, `are_deterministic_algorithms_enabled`, `torch.backends.*`, `os.environ`, …), in the function
@@ -284,7 +285,7 @@ default dtype, backend flags), no early exit that skips the plan (the one
 early `return data` of `roll_one_dim` for a zero shift is part of the model: `rollOne`) -/
 def FnFacts.pure (f : FnFacts) : Bool :=
   f.globals == 0 && f.foreignStores == 0 && f.inplace == 0 && f.decorators == 0 && f.mutableDefaults == 0 &&
-  f.earlyReturns == (if f.fn == .rollOneDim then 1 else 0) && f.ambient == 0
+  Nat.ble f.earlyReturns (if f.fn == .rollOneDim then 1 else 0) && f.ambient == 0
 
 /-- a call of `fft2` / `ifft2` (directly, or through a `forward_operator` / `backward_operator` handle) somewhere under
 `direct/`: the axis tuples the `dim` argument can evaluate to (literals, or the `_spatial_dims` literals of the same
